@@ -1,5 +1,7 @@
 """Driver configuration and manifest text for C13 (see DESIGN.md)."""
 
+RULE_ADD = ' Later additions: rejoin steps (a departed member comes back with the last plan it knows of, under its old generation; stickiness clauses that compare with what everybody reported are skipped for that step), joiners with wide subscriptions, subscription lists in arbitrary order; Plan runs under a 60 s watchdog (plan-hang).'
+
 CHECK = {'pkg': '.',
  'parts': [{'name': 'chains', 'test': 'TestVF_C13', 'shrinktime': '2s', 'quick': {'shards': 8, 'checks': 12000}, 'thorough': {'shards': 16, 'checks': 150000}},
            {'name': 'exhaustive',
